@@ -6,13 +6,15 @@ quick tier against it with VERIF_REPO, report exit code, delete the scratch copy
 import argparse, os, shutil, subprocess, sys, tempfile
 ap = argparse.ArgumentParser()
 ap.add_argument("prop"); ap.add_argument("--file"); ap.add_argument("--old"); ap.add_argument("--new")
-ap.add_argument("--patch"); ap.add_argument("--tests", action="store_true"); ap.add_argument("--tier", default="quick")
+ap.add_argument("--patch"); ap.add_argument("--script"); ap.add_argument("--tests", action="store_true"); ap.add_argument("--tier", default="quick")
 ap.add_argument("--seed", default="1")
 a = ap.parse_args()
 d = tempfile.mkdtemp(prefix="verif-mutant-")
 try:
     subprocess.check_call(["rsync", "-a", "--exclude", ".git", "--exclude", "__pycache__", "/repo/", d + "/"])
-    if a.patch:
+    if a.script:
+        subprocess.check_call([sys.executable, a.script, d])
+    elif a.patch:
         subprocess.check_call(["patch", "-p1", "-s", "-d", d, "-i", os.path.abspath(a.patch)])
     else:
         p = os.path.join(d, "custom_components/pyscript", a.file)
@@ -25,7 +27,7 @@ try:
         r = subprocess.run(["/venv/bin/python", os.path.join(os.path.dirname(__file__), "baseline.py"), d], capture_output=True, text=True)
         print("baseline:", r.stdout.strip().split("\n")[0], "rc", r.returncode)
     env = dict(os.environ, VERIF_REPO=d, VERIF_SEED=a.seed, VERIF_EVIDENCE_DIR=os.path.join(d, "_evidence"), VERIF_REPLAY_DIR=os.path.join(d, "_replays"))
-    r = subprocess.run(["/venv/bin/python", os.path.join(os.path.dirname(os.path.dirname(os.path.abspath(__file__))), "run.py"), a.prop, "--tier", a.tier], env=env, capture_output=True, text=True)
+    r = subprocess.run(["/venv/bin/python", os.path.join(os.path.dirname(os.path.dirname(os.path.abspath(__file__))), "run.py"), a.prop, "--tier", a.tier], env=env, capture_output=True, text=True, timeout=1500)
     out = r.stdout.strip().split("\n")
     print("\n".join(out[-6:]))
     if r.returncode == 2: print(r.stderr[-1500:])
